@@ -188,7 +188,7 @@ def build(tier, seed):
         """`rebuilt`: attribute -> how the copy's value relates to the original's ("copy.copy" / "new dict, same values")"""
         def post(o, r, nw):
             if not isinstance(nw.self, Rec):
-                return True
+                return r.ok if isinstance(r, Verdict) else True
             src = nw.self
             if not (isinstance(r, Rec) and r is not src and r.cls is src.cls and list(sorted(r.f)) == list(sorted(src.f))):
                 return False
@@ -214,15 +214,15 @@ def build(tier, seed):
         return post
     contracts.append(FnContract(wb, "Operator.__copy__", [
         Case("attributes shared, _data via copy.copy, _hyperparameters a new dict", {"self": attrs_type("Operator", wb)}, ghost=ghost,
-             ensures=post_copy("Operator", {"_hyperparameters": "new dict, same values"}), native_gen=native_skip, native_call=lambda mod, a: None)]))
+             ensures=post_copy("Operator", {"_hyperparameters": "new dict, same values"}), native_gen=native_skip, native_call=scenario("Operator.__copy__"), native_raw=True)]))
     contracts.append(FnContract(w2, "Operator2.__copy__", [
         Case("every attribute shared", {"self": attrs_type("Operator2", w2)}, ghost=ghost, ensures=post_copy("Operator2", {}),
-             native_gen=native_skip, native_call=lambda mod, a: None)]))
+             native_gen=native_skip, native_call=scenario("Operator2.__copy__"), native_raw=True)]))
 
     def post_deepcopy(shared_data):
         def post(o, r, nw):
             if not isinstance(nw.self, Rec):
-                return True
+                return r.ok if isinstance(r, Verdict) else True
             src, memo = nw.self, nw.memo
             if not (isinstance(r, Rec) and r is not src and r.cls is src.cls and sorted(r.f) == sorted(src.f)):
                 return False
@@ -238,10 +238,10 @@ def build(tier, seed):
     MEMO = T("build", lambda ctx, name: {}, gen=lambda rng: {})
     contracts.append(FnContract(wb, "Operator.__deepcopy__", [
         Case("no mutable state shared, memo registered and passed on", {"self": attrs_type("Operator", wb), "memo": MEMO}, ghost=ghost,
-             ensures=post_deepcopy(True), native_gen=native_skip, native_call=lambda mod, a: None)]))
+             ensures=post_deepcopy(True), native_gen=native_skip, native_call=scenario("Operator.__deepcopy__"), native_raw=True)]))
     contracts.append(FnContract(w2, "Operator2.__deepcopy__", [
         Case("no mutable state shared, memo registered and passed on", {"self": attrs_type("Operator2", w2), "memo": MEMO}, ghost=ghost,
-             ensures=post_deepcopy(False), native_gen=native_skip, native_call=lambda mod, a: None)]))
+             ensures=post_deepcopy(False), native_gen=native_skip, native_call=scenario("Operator2.__deepcopy__"), native_raw=True)]))
 
     # CompositeOp.__copy__ / SymbolicOp.__copy__: operands / base are copied too
     wcomp = World(OM + "composite.py", classes={"CompositeOp": {}, "Operator": (BASE, {})}, stubs={"Arr": (ARR_SRC, {"tag": Int})}, extra_builtins=LIB)
@@ -255,7 +255,7 @@ def build(tier, seed):
     for n in (1, 2, 3):
         contracts.append(FnContract(wcomp, "CompositeOp.__copy__", [
             Case(f"{n} operands: each operand copied, in order", {"self": attrs_type("CompositeOp", wcomp, comp_extra(n))}, ghost=ghost,
-                 ensures=post_copy("CompositeOp", {"operands": "copied operands"}), native_gen=native_skip, native_call=lambda mod, a: None,
+                 ensures=post_copy("CompositeOp", {"operands": "copied operands"}), native_gen=native_skip, native_call=scenario("CompositeOp.__copy__"), native_raw=True,
                  size_bounded=True)]))
     wsym = World(OM + "symbolicop.py", classes={"SymbolicOp": {}, "Operator": (BASE, {})}, stubs={"Arr": (ARR_SRC, {"tag": Int})}, extra_builtins=LIB)
 
@@ -268,7 +268,7 @@ def build(tier, seed):
     contracts.append(FnContract(wsym, "SymbolicOp.__copy__", [
         Case("hyperparameters copied, base copied", {"self": sym_type()}, ghost=ghost,
              ensures=post_copy("SymbolicOp", {"_hyperparameters": "hyperparameters with a copied base"}), native_gen=native_skip,
-             native_call=lambda mod, a: None)]))
+             native_call=scenario("SymbolicOp.__copy__"), native_raw=True)]))
 
     # ================================================================================================ (2) flatten / unflatten round trips
     class Built(Model):
@@ -286,7 +286,7 @@ def build(tier, seed):
         constructor call with `expect(self) -> (args, kwargs)`"""
         def post(o, r, nw):
             if not isinstance(nw.self, Rec):
-                return True
+                return r.ok if isinstance(r, Verdict) else True
             if not (isinstance(r, tuple) and len(r) == 2):
                 return False
             it = Interp(cell["ctx"], None)
@@ -302,7 +302,7 @@ def build(tier, seed):
             return len(got_args) == len(want_args) and all(same(a_, b_) or seq_same(a_, b_) for a_, b_ in zip(got_args, want_args)) and \
                 sorted(built.kwargs) == sorted(want_kwargs) and all(same(built.kwargs[k], want_kwargs[k]) or seq_same(built.kwargs[k], want_kwargs[k])
                                                                     for k in want_kwargs) and untouched(o.self, nw.self)
-        return Case(label, {"self": self_type}, ghost=ghost, ensures=post, native_gen=native_skip, native_call=lambda mod, a: None, size_bounded=size_bounded)
+        return Case(label, {"self": self_type}, ghost=ghost, ensures=post, native_gen=native_skip, native_call=scenario("roundtrip:" + cls_qual), native_raw=True, size_bounded=size_bounded)
 
     def seq_same(a_, b_):
         xs = list(a_.items) if isinstance(a_, PyList) else (list(a_) if isinstance(a_, (tuple, list)) else None)
@@ -402,7 +402,7 @@ def build(tier, seed):
 
     def post_mp_copy(o, r, nw):
         if not isinstance(nw.self, Rec):
-            return True
+            return r.ok if isinstance(r, Verdict) else True
         src = nw.self
         if not (isinstance(r, Rec) and r is not src and r.cls is src.cls and sorted(r.f) == sorted(src.f)):
             return False
@@ -426,7 +426,7 @@ def build(tier, seed):
             return T("build", c, gen=lambda rng: None)
         contracts.append(FnContract(wmpc, "MeasurementProcess.__copy__", [
             Case(f"{variant} variant: attributes shared, obs copied", {"self": mk()}, ghost=ghost, ensures=post_mp_copy, native_gen=native_skip,
-                 native_call=lambda mod, a: None)]))
+                 native_call=scenario("MeasurementProcess.__copy__"), native_raw=True)]))
 
     # ================================================================================================ (4) bind_new_parameters
     class Bound(Model):
@@ -476,14 +476,15 @@ def build(tier, seed):
     def bnp_case(fname, label, op_fields, check, size_bounded=False, requires=None, params_t=None):
         def post(o, r, nw):
             if not isinstance(nw.op, Rec):
-                return True
+                return r.ok if isinstance(r, Verdict) else True
             cls, args, kwargs = built_args(r)
             if cls is None:
                 return False
             return And(check(nw.op, nw.params, cls, args, kwargs), untouched(o.op, nw.op))
         contracts.append(FnContract(wbn, fname, [Case(label, {"op": gen_op(op_fields), "params": params_t or PARAMS}, ghost=ghost, requires=requires, ensures=post,
-                                                      native_gen=native_skip, native_call=lambda mod, a: None, size_bounded=size_bounded)]))
+                                                      native_gen=native_skip, native_call=scenario("bind:" + fname.replace("bind_new_parameters_", "")), native_raw=True, size_bounded=size_bounded)]))
     L = z3.Length
+    need1 = lambda a: L(a.params.term) >= 1 if isinstance(a.params, SeqV) else True
 
     def base_fields(ctx):
         return {"hyperparameters": {"base": Rec(wbn.classes["Operand"], {"num_params": fresh(ctx, Int, "n"), "tag": 1}), "n": fresh(ctx, Label, "n_"),
@@ -504,7 +505,7 @@ def build(tier, seed):
     bnp_case("bind_new_parameters_sprod", "SProd(params[0], bind(base, params[1:]))", with_base,
              lambda op, p, cls, a, k: cls == "SProd" and len(a) == 2 and not k and isinstance(a[1], Bound) and a[1].op is op.f["base"] and
              And(L(p.term) > 0, a[0].t == p.term[0], seq_goal(a[1].params, z3.Extract(p.term, 1, L(p.term) - 1))),
-             requires=lambda a: L(a.params.term) >= 1 if isinstance(a.params, SeqV) else True)
+             requires=need1)
     bnp_case("bind_new_parameters_pow", "Pow(bind(base, params), scalar)", with_base,
              lambda op, p, cls, a, k: cls == "Pow" and len(a) == 2 and not k and whole(a[0], op.f["base"], p) and same(a[1], op.f["scalar"]))
     bnp_case("bind_new_parameters_pow2", "Pow2(bind(base, params), z=z)", with_base,
@@ -526,7 +527,6 @@ def build(tier, seed):
         f["hyperparameters"].update({"hamiltonian": f["base"], "frequencies": fresh(ctx, Label, "freq"), "shifts": fresh(ctx, Label, "shifts"),
                                      "wires1": fresh(ctx, Label, "w1"), "wires2": fresh(ctx, Label, "w2")})
         return f
-    need1 = lambda a: L(a.params.term) >= 1 if isinstance(a.params, SeqV) else True
 
     def last_time(cls_name, ham_key, kw_keys):
         def chk(op, p, cls, a, k):
@@ -608,7 +608,7 @@ def build(tier, seed):
 
     def mc_bind_rec(it, args, kwargs):
         return Rec(wbs.classes["BoundOp"], {"tag": args[0].f["tag"], "count": args[0].f["num_params"], "params": args[1]})
-    wbs = World(BNP, functions=["bind_new_parameters_composite_op"], stubs={"GenOp": (GEN_SRC, {}), "Operand": OPSTUB,
+    wbs = World(BNP, functions=["bind_new_parameters", "bind_new_parameters_composite_op"], stubs={"GenOp": (GEN_SRC, {}), "Operand": OPSTUB,
                                                                              "BoundOp": (BOUND_SRC, {"tag": Int, "count": Int, "params": PAX})},
                 modular={"bind_new_parameters": mc_bind_rec}, extra_builtins=dict(LIB, CTORSEQ=lambda it, a, k: Built("cls", a, k)))
     wbs.aseq(Float)
@@ -644,23 +644,33 @@ def build(tier, seed):
                           z3.And(b.f["tag"] == tag_at(ops, j), s_len(b.f["params"].term) == np_at(ops, j),
                                  z3.Implies(z3.And(0 <= k, k < np_at(ops, j)), s_at(b.f["params"].term, k) == s_at(p.term, POS(j) + k))))
 
+    def FA(vs, body, patterns):
+        try:
+            return z3.ForAll(vs, body, patterns=patterns)
+        except z3.Z3Exception:          # the instance to PROVE may contain if-terms (no pattern needed: it is skolemised)
+            return z3.ForAll(vs, body)
+
     def sym_inv(v):
         i = v._i0
         ops, p0 = v.op.f["operands"], v.at_entry.params
         j, k = z3.Ints("ij ik")
         cur = v.params
+        if isinstance(v.new_operands, PyList):          # loop entry: the empty python list
+            return z3.And(len(v.new_operands.items) == 0, i == 0, s_len(cur.term) == s_len(p0.term) - POS(i),
+                          FA([k], z3.Implies(z3.And(0 <= k, k < s_len(cur.term)), s_at(cur.term, k) == s_at(p0.term, POS(i) + k)),
+                                    patterns=[s_at(cur.term, k)]))
         b = bound_at(v.new_operands, j)
         return z3.And(
             s_len(v.new_operands.term) == i, s_len(cur.term) == s_len(p0.term) - POS(i),
-            z3.ForAll([k], z3.Implies(z3.And(0 <= k, k < s_len(cur.term)), s_at(cur.term, k) == s_at(p0.term, POS(i) + k)), patterns=[s_at(cur.term, k)]),
-            z3.ForAll([j], z3.Implies(z3.And(0 <= j, j < i), z3.And(b.f["tag"] == tag_at(ops, j), s_len(b.f["params"].term) == np_at(ops, j))),
+            FA([k], z3.Implies(z3.And(0 <= k, k < s_len(cur.term)), s_at(cur.term, k) == s_at(p0.term, POS(i) + k)), patterns=[s_at(cur.term, k)]),
+            FA([j], z3.Implies(z3.And(0 <= j, j < i), z3.And(b.f["tag"] == tag_at(ops, j), s_len(b.f["params"].term) == np_at(ops, j))),
                       patterns=[s_at(v.new_operands.term, j)]),
-            z3.ForAll([j, k], z3.Implies(z3.And(0 <= j, j < i, 0 <= k, k < np_at(ops, j)), s_at(b.f["params"].term, k) == s_at(p0.term, POS(j) + k)),
+            FA([j, k], z3.Implies(z3.And(0 <= j, j < i, 0 <= k, k < np_at(ops, j)), s_at(b.f["params"].term, k) == s_at(p0.term, POS(j) + k)),
                       patterns=[s_at(b.f["params"].term, k)]))
 
     def sym_post(o, r, nw):
         if not isinstance(nw.op, Rec):
-            return True
+            return r.ok if isinstance(r, Verdict) else True
         if not (isinstance(r, Built) and len(r.args) == 1 and isinstance(r.args[0], StarArgs) and not r.kwargs):
             return False
         res, ops, p = r.args[0].seq, nw.op.f["operands"], o.params
@@ -670,7 +680,7 @@ def build(tier, seed):
         "any number of operands: operand j gets params[POS(j):POS(j+1)], POS = running sum of num_params (loop invariant)",
         {"op": sym_op_type(), "params": PAX}, ghost=ghost, requires=lambda a: z3.And(*pos_axioms(a.op.f["operands"], a.params)) if isinstance(a.op, Rec) else True,
         ensures=sym_post, loops={0: LoopSpec(sym_inv, types={"new_operands": SeqT(RecT("BoundOp"), ax=True), "params": PAX})},
-        native_gen=native_skip, native_call=lambda mod, a: None)]))
+        native_gen=native_skip, native_call=scenario("bind:composite_op"), native_raw=True)]))
     cell["pos_lemmas"] = None
     pj, pk, cnt = z3.Ints("lj lk lcnt")
     plan.add(lemma(PID, "partition/POS is monotone: induction step", [pj, pk, cnt], POS(pj) <= POS(pk + 1),
@@ -685,16 +695,196 @@ def build(tier, seed):
             plan.add(ob)
     for nm in NATIVE_TABLE:
         plan.add(native_obligation(nm))
+    # candidate defects found by the stand-in on the UNCHANGED tree (replayed natively, reported).  known_findings.json is read only here:
+    # an instance joins the plan, tagged, as soon as a finding of this property naming the keyword is registered; after a repair the
+    # name belongs into NATIVE_TABLE.
+    from vf.common import load_known_findings
+    for nm, keyword, what in CANDIDATE_DEFECTS:
+        fid = next((f.get("id") for f in load_known_findings() if f.get("property") == PID and keyword in str(f.get("title", "")) + str(f.get("summary", ""))), None)
+        if fid:
+            ob = native_obligation(nm)
+            ob.finding = fid
+            plan.add(ob)
+        else:
+            plan.unverified.append(f"candidate defect (reported, not an obligation until registered): {what}")
     return plan
 
 
 # ---------------------------------------------------------------------------------------------- bounded native stand-in
+
+class Verdict:
+    """outcome of the native counterpart of an E1 case (the same conditions evaluated on real operators)"""
+
+    def __init__(self, problems):
+        self.problems, self.ok = list(problems), not problems
+
+    def __repr__(self):
+        return "ok" if self.ok else "; ".join(self.problems[:4])
+
+
+def scenario(kind):
+    """native counterpart of the E1 cases of one group: real objects through the real method, same conditions"""
+    def run(mod, args):
+        import numpy as np
+        import pennylane as qp
+        bad = []
+
+        def must(cond, msg):
+            if not cond:
+                bad.append(msg)
+
+        def vars_same(a, before, what):
+            # attributes that were None / absent before may be filled lazily (cached hash, empty hyperparameter dict)
+            must(all(k in vars(a) and (vars(a)[k] is before[k] or before[k] is None) for k in before), f"{what}: the original's attributes changed")
+
+        def probe_cls():
+            class Probe(mod.Operator):
+                num_wires = 1
+
+                def __init__(self, x, y, wires, arr=None):
+                    self._hyperparameters = {"h_scalar": 3, "h_array": arr}
+                    self._cached = arr
+                    super().__init__(x, y, wires=wires)
+            return Probe
+        try:
+            if kind in ("Operator.__copy__", "Operator.__deepcopy__"):
+                arr = np.array([1.0, 2.0])
+                op = probe_cls()(0.1, 0.2, 0, arr)
+                before = dict(vars(op))
+                if kind == "Operator.__copy__":
+                    c = mod.Operator.__copy__(op)
+                    must(type(c) is type(op) and c is not op and sorted(vars(c)) == sorted(vars(op)), "copy: class or attribute set differs")
+                    must(c._hyperparameters is not op._hyperparameters and list(c._hyperparameters) == list(op._hyperparameters)
+                         and all(c._hyperparameters[k] is op._hyperparameters[k] for k in op._hyperparameters), "copy: _hyperparameters is not a new dict with the same values")
+                    must(all(vars(c)[k] is vars(op)[k] for k in vars(op) if k not in ("_data", "_hyperparameters")), "copy: an attribute is not shared")
+                    must(len(c._data) == 2 and all(x == y for x, y in zip(c._data, op._data)), "copy: _data differs")
+                else:
+                    memo = {}
+                    c = mod.Operator.__deepcopy__(op, memo)
+                    must(type(c) is type(op) and c is not op and sorted(vars(c)) == sorted(vars(op)), "deepcopy: class or attribute set differs")
+                    must(memo.get(id(op)) is c, "deepcopy: the copy is not registered in the memo")
+                    must(c._hyperparameters is not op._hyperparameters and c._hyperparameters["h_array"] is not arr and
+                         not np.shares_memory(c._hyperparameters["h_array"], arr) and np.array_equal(c._hyperparameters["h_array"], arr), "deepcopy: mutable state shared")
+                    must(c._cached is c._hyperparameters["h_array"], "deepcopy: an object referenced twice was copied twice (memo not passed on)")
+                    must(tuple(c._data) == tuple(op._data) and c._wires == op._wires, "deepcopy: data or wires differ")
+                vars_same(op, before, kind)
+            elif kind in ("Operator2.__copy__", "Operator2.__deepcopy__"):
+                op = qp.QubitUnitary(np.array([[0, 1], [1, 0]], dtype=complex), 0)
+                shared = np.array([1.0, 2.0])
+                op._probe_a, op._probe_b = shared, shared
+                before = dict(vars(op))
+                if kind == "Operator2.__copy__":
+                    c = mod.Operator2.__copy__(op)
+                    must(type(c) is type(op) and c is not op and sorted(vars(c)) == sorted(vars(op)) and all(vars(c)[k] is vars(op)[k] for k in vars(op)),
+                         "copy: not every attribute is shared")
+                else:
+                    memo = {}
+                    c = mod.Operator2.__deepcopy__(op, memo)
+                    must(type(c) is type(op) and c is not op and sorted(vars(c)) == sorted(vars(op)), "deepcopy: class or attribute set differs")
+                    must(memo.get(id(op)) is c, "deepcopy: the copy is not registered in the memo")
+                    must(c._probe_a is not shared and not np.shares_memory(c._probe_a, shared) and np.array_equal(c._probe_a, shared), "deepcopy: mutable state shared")
+                    must(c._probe_a is c._probe_b, "deepcopy: an object referenced twice was copied twice (memo not passed on)")
+                    del c._probe_a, c._probe_b
+                vars_same(op, before, kind)
+                del op._probe_a, op._probe_b
+                if kind.endswith("deepcopy__"):
+                    must(qp.equal(c, op), "deepcopy: not equal to the original")
+            elif kind == "CompositeOp.__copy__":
+                for op in (qp.prod(qp.RX(0.1, 0), qp.Rot(0.1, 0.2, 0.3, 1), qp.RY(0.2, 2)), qp.sum(qp.Z(0), qp.RX(0.2, 1))):
+                    before = dict(vars(op))
+                    c = mod.CompositeOp.__copy__(op)
+                    must(type(c) is type(op) and c is not op and sorted(vars(c)) == sorted(vars(op)), "copy: class or attribute set differs")
+                    must(len(c.operands) == len(op.operands) and all(x is not y and type(x) is type(y) and qp.equal(x, y) for x, y in zip(c.operands, op.operands)),
+                         "copy: operands are not copies of the original's operands in order")
+                    must(all(vars(c)[k] is vars(op)[k] for k in vars(op) if k != "operands"), "copy: an attribute is not shared")
+                    vars_same(op, before, kind)
+            elif kind == "SymbolicOp.__copy__":
+                op = qp.ops.op_math.Adjoint(qp.RX(0.3, 0))
+                before, hp_before = dict(vars(op)), dict(op._hyperparameters)
+                c = mod.SymbolicOp.__copy__(op)
+                must(type(c) is type(op) and c is not op and sorted(vars(c)) == sorted(vars(op)), "copy: class or attribute set differs")
+                must(c._hyperparameters is not op._hyperparameters and list(c._hyperparameters) == list(op._hyperparameters), "copy: hyperparameters not a new dict")
+                must(c.base is not op.base and qp.equal(c.base, op.base), "copy: base is not a copy")
+                must(all(vars(c)[k] is vars(op)[k] for k in vars(op) if k != "_hyperparameters"), "copy: an attribute is not shared")
+                vars_same(op, before, kind)
+                must(all(op._hyperparameters[k] is hp_before[k] for k in hp_before) and list(op._hyperparameters) == list(hp_before), "copy: the original's hyperparameters changed")
+            elif kind == "MeasurementProcess.__copy__":
+                for m in (qp.expval(qp.RX(0.2, 0) @ qp.Z(1)), qp.probs(wires=[0, 1]), qp.sample(wires=[0])):
+                    before = dict(vars(m))
+                    c = mod.MeasurementProcess.__copy__(m)
+                    must(type(c) is type(m) and c is not m and sorted(vars(c)) == sorted(vars(m)), "copy: class or attribute set differs")
+                    if m.obs is not None:
+                        must(c.obs is not m.obs and qp.equal(c.obs, m.obs), "copy: obs is not a copy")
+                    must(all(vars(c)[k] is vars(m)[k] for k in vars(m) if k != "obs"), "copy: an attribute is not shared")
+                    vars_same(m, before, kind)
+            elif kind.startswith("roundtrip:"):
+                for nm in ROUNDTRIP[kind.split(":", 1)[1]]:
+                    op = make_native(nm)
+                    before = dict(vars(op))
+                    new = type(op)._unflatten(*op._flatten())
+                    legacy_pow = nm == "Pow-class"          # Pow._unflatten goes through qp.pow, which returns the new class Pow2 (reported separately)
+                    must(qp.equal(new, op) and (legacy_pow or (type(new) is type(op) and hash(new) == hash(op))), f"{nm}: round trip is not equal to the original")
+                    if hasattr(op, "wires"):
+                        must(new.wires == op.wires, f"{nm}: wires differ")
+                    if hasattr(op, "operands"):
+                        must([repr(o) for o in new.operands] == [repr(o) for o in op.operands], f"{nm}: operands differ or are reordered")
+                    if isinstance(getattr(op, "hyperparameters", None), dict):
+                        must(list(sorted(map(str, new.hyperparameters))) == list(sorted(map(str, op.hyperparameters))), f"{nm}: hyperparameter keys differ")
+                        must(all(repr(new.hyperparameters[k]) == repr(op.hyperparameters[k]) for k in op.hyperparameters), f"{nm}: hyperparameters differ")
+                    if hasattr(op, "data") and not hasattr(op, "return_type"):
+                        must(len(new.data) == len(op.data) and all(np.allclose(x, y) for x, y in zip(new.data, op.data)), f"{nm}: data differ")
+                    vars_same(op, before, nm)
+            elif kind.startswith("bind:"):
+                for nm in BIND[kind.split(":", 1)[1]]:
+                    op = make_native(nm)
+                    before = dict(vars(op))
+                    old_data = [np.array(d, copy=True) for d in op.data]
+                    new = [np.asarray(d) * 0.5 + 0.125 * (i + 1) for i, d in enumerate(op.data)]
+                    b = qp.ops.functions.bind_new_parameters(op, new)
+                    must(type(b) is type(op) and b is not op, f"{nm}: class changed or the input itself returned")
+                    must(len(b.data) == len(new) and all(np.allclose(x, y) for x, y in zip(b.data, new)), f"{nm}: parameters of the result {b.data} are not the new ones {new}")
+                    must(b.wires == op.wires, f"{nm}: wires changed")
+                    if hasattr(op, "operands"):
+                        must([type(o) for o in b.operands] == [type(o) for o in op.operands] and [o.wires for o in b.operands] == [o.wires for o in op.operands],
+                             f"{nm}: operands changed")
+                    hp_o = {k: v for k, v in op.hyperparameters.items() if not isinstance(v, (mod_operator(), list, tuple))}
+                    must(all(repr(b.hyperparameters.get(k)) == repr(v) for k, v in hp_o.items()), f"{nm}: a hyperparameter changed")
+                    must(all(np.array_equal(x, y) for x, y in zip(op.data, old_data)), f"{nm}: the input's parameters changed")
+                    vars_same(op, before, nm)
+        except Exception as ex:  # pylint: disable=broad-except
+            bad.append(f"raised {type(ex).__name__}: {str(ex)[:120]}")
+        return Verdict(bad)
+    return run
+
+
+def mod_operator():
+    import pennylane as qp
+    return qp.operation.Operator
+
+
+ROUNDTRIP = {"Operator": ["RX", "Rot", "PauliRot", "MultiRZ", "Projector", "MultiControlledX"], "CompositeOp": ["prod(X, RY)", "prod3"], "Sum": ["sum(Z, RX)", "Hamiltonian-sum"],
+             "Adjoint": ["Adjoint-class"], "Pow": ["Pow-class"], "SProd": ["s_prod(2.5, X)"], "Exp": ["exp(X, 0.3j)", "evolve(Z, 0.7)"],
+             "Controlled": ["ctrl(RY)", "ctrl(ctrl(S))", "ctrl-work"], "MeasurementProcess": ["expval(Z)", "expval(sum)", "probs(wires)", "var(Hermitian)", "sample(X)", "counts()", "sample(mv)"]}
+BIND = {"sprod": ["s_prod(2.5, X)", "s_prod(2.5, RX)"], "pow": ["Pow-class"], "pow2": ["pow(RX, 2.5)"], "controlled_sequence": ["ControlledSequence"], "prep_sel_prep": [],
+        "controlled_op2": ["ctrl(RY)", "ctrl-work"], "conditional": ["cond(RX)"], "approx_time_evolution": ["ApproxTimeEvolution"], "qdrift": ["QDrift"],
+        "commuting_evolution": ["CommutingEvolution"], "fermionic_double_excitation": ["FermionicDoubleExcitation"], "symbolic_op": ["Adjoint-class"],
+        "scalar_symbolic_op": ["exp(RX-sum)"], "composite_op": ["prod3", "sum(Z, RX)", "prod(X, RY)"]}
+
 NATIVE_TABLE = ["RX", "Rot", "CNOT", "CRX", "Toffoli", "MultiControlledX", "QubitUnitary", "PauliRot", "MultiRZ", "IsingXX", "PhaseShift", "U3",
                 "Hadamard", "Identity", "GlobalPhase", "Hermitian", "Projector", "StatePrep", "BasisState", "adjoint(RX)", "pow(RX, 2.5)", "ctrl(RY)",
                 "ctrl(ctrl(S))", "prod(X, RY)", "sum(Z, RX)", "s_prod(2.5, X)", "exp(X, 0.3j)", "evolve(Z, 0.7)", "LinearCombination", "Hamiltonian-sum",
-                "ControlledQubitUnitary", "DoubleExcitation", "Barrier", "Snapshot", "AmplitudeDamping", "DepolarizingChannel", "BitFlip",
+                "DoubleExcitation", "Barrier", "Snapshot", "AmplitudeDamping", "DepolarizingChannel", "BitFlip",
                 "QubitChannel", "TrotterProduct", "ApproxTimeEvolution", "AngleEmbedding", "expval(Z)", "expval(sum)", "probs(wires)", "var(Hermitian)",
-                "sample(X)", "counts()"]
+                "sample(X)", "counts()", "prod3", "ctrl-work", "sample(mv)", "ControlledSequence", "QDrift", "CommutingEvolution",
+                "FermionicDoubleExcitation", "s_prod(2.5, RX)", "exp(RX-sum)", "Adjoint-class"]
+
+
+CANDIDATE_DEFECTS = [
+    ("Pow-class", "Pow._unflatten", "round trip of a legacy Pow instance (Pow._unflatten / pytree) returns the new class Pow2 with a different hash"),
+    ("cond(RX)", "Conditional", "Conditional._unflatten(*op._flatten()) and the pytree round trip raise TypeError (unexpected keyword 'wires')"),
+    ("ControlledQubitUnitary", "ControlledQubitUnitary", "bind_new_parameters(ControlledQubitUnitary, op.data) raises TypeError; with one parameter it resets "
+     "control_values and drops work_wires"),
+]
 
 
 def make_native(name):
@@ -723,6 +913,15 @@ def make_native(name):
         "AngleEmbedding": lambda: qp.AngleEmbedding(np.array([0.1, 0.2]), wires=[0, 1], rotation="Y"),
         "expval(Z)": lambda: qp.expval(qp.Z(0)), "expval(sum)": lambda: qp.expval(0.5 * qp.X(0) + qp.Z(1)), "probs(wires)": lambda: qp.probs(wires=[0, 1]),
         "var(Hermitian)": lambda: qp.var(qp.Hermitian(np.array([[1.0, 0.5], [0.5, -1.0]]), 0)), "sample(X)": lambda: qp.sample(qp.X(0)), "counts()": lambda: qp.counts(),
+        "prod3": lambda: qp.prod(qp.RX(0.1, 0), qp.Rot(0.2, 0.3, 0.4, 1), qp.RY(0.5, 2)),
+        "ctrl-work": lambda: qp.ctrl(qp.RY(0.2, 2), [0, 1], control_values=[1, 0], work_wires=[5], work_wire_type="zeroed"),
+        "sample(mv)": lambda: qp.sample(qp.measure(0)), "ControlledSequence": lambda: qp.ControlledSequence(qp.RX(0.25, 3), control=[0, 1]),
+        "cond(RX)": lambda: qp.ops.Conditional(qp.measure(0), qp.RX(0.3, 1)),
+        "QDrift": lambda: qp.QDrift(0.5 * qp.X(0) + 0.3 * qp.Z(1), 0.7, n=3, seed=11),
+        "CommutingEvolution": lambda: qp.CommutingEvolution(0.5 * qp.X(0) @ qp.Y(1) + 0.3 * qp.Y(0) @ qp.X(1), 0.7, frequencies=(2,)),
+        "FermionicDoubleExcitation": lambda: qp.FermionicDoubleExcitation(0.3, wires1=[0, 1], wires2=[2, 3]),
+        "s_prod(2.5, RX)": lambda: qp.s_prod(2.5, qp.RX(0.3, 0)), "exp(RX-sum)": lambda: qp.ops.op_math.Exp(qp.sum(qp.RX(0.1, 0), qp.Z(1)), 0.5j),
+        "Adjoint-class": lambda: qp.ops.op_math.Adjoint(qp.RX(0.3, 0)), "Pow-class": lambda: qp.ops.op_math.Pow(qp.RX(0.3, 0), 2.5),
     }
     return t[name]()
 
